@@ -487,10 +487,27 @@ func prefillBoundEqualsCap(op chanOp) bool {
 	if !ok {
 		return false
 	}
-	mc, ok := snd.Chan.(*ssa.MakeChan)
+	return prefillLoopAround(snd, snd.Chan)
+}
+
+// prefillLoopAround: the instruction at (a send, or the call of a method of a channel type that only sends on its receiver)
+// sits in a counting loop 0..cap-1 over the capacity the channel ch was made with, in at's own function.
+func prefillLoopAround(at ssa.Instruction, chv ssa.Value) bool {
+	type sendLike interface {
+		ssa.Instruction
+	}
+	var snd sendLike = at
+	for {
+		if ct, isCT := chv.(*ssa.ChangeType); isCT {
+			chv = ct.X
+			continue
+		}
+		break
+	}
+	mc, ok := chv.(*ssa.MakeChan)
 	if !ok {
 		// the channel variable is captured by the goroutines, so it lives in a cell
-		if ld, isLd := snd.Chan.(*ssa.UnOp); isLd && ld.Op == token.MUL {
+		if ld, isLd := chv.(*ssa.UnOp); isLd && ld.Op == token.MUL {
 			if cell, isCell := ld.X.(*ssa.Alloc); isCell {
 				if sts := storesTo(cell); len(sts) == 1 {
 					mc, ok = sts[0].Val.(*ssa.MakeChan)
